@@ -11,6 +11,7 @@ DEX = "androguard/core/dex/__init__.py"
 AXML = "androguard/core/axml/__init__.py"
 APKF = "androguard/core/apk/__init__.py"
 META = {
+    "technique": 'contract-based deductive verification: symbolic execution of the real functions against sidecar contracts (z3/cvc5) for the proved units; bounded contract evaluation (enumerated scope / independent writer) for the rest',
     "level": "other",
     "partial": True,
     "level_text": "Proof (all contents of short inputs): the loops named in the property are executed on streams of symbolic bytes "
